@@ -1,6 +1,7 @@
 package main
 
 import (
+	"context"
 	"encoding/json"
 	"os"
 )
@@ -25,4 +26,4 @@ func readOverlay(path string) (map[string][]byte, error) {
 	return m, nil
 }
 
-func cmdCheck(args []string) {}
+func ctxBackground() context.Context { return context.Background() }
